@@ -41,6 +41,8 @@ def fold(prop, level, results, info, rep, what):
                                     solver_queries=r.get('queries'), wall_s=r.get('wall'), notes=r.get('notes')))
     rep.extra['programs'] = len([r for r in results if r['status'] != 'skipped'])
     rep.extra['paths_total'] = sum(r['paths'] for r in results)
+    if info.get('static_isa', {}).get('programs'):
+        rep.extra['static_isa_scan'] = dict(info['static_isa'], rule='every instruction of every family program whose code is byte-identical under a reduced flag set is decoded and its ISA class compared with the flags')
     rep.extra['compiled'] = {'%s/%s' % k: v for k, v in info['compiled'].items()}
     rep.extra['refused_by_backend'] = {'%s/%s' % k: v for k, v in info['refused'].items()}
     rep.extra['fresh_vs_cached'] = dict(fresh=sum(1 for r in results if not r.get('cached')), cached=sum(1 for r in results if r.get('cached')))
